@@ -5,3 +5,5 @@ import build as B
 B.gc(keep=8)
 import maps_common
 maps_common.maps_build()
+import field_common
+field_common.field_build()
